@@ -21,6 +21,22 @@ def dereference(reference: Optional[dict], name: str):
     return updated
 
 
+def _instance_is_exact(model) -> bool:
+    # can cls(**arguments) rebuild this parameter-free model? every attribute a constructor
+    # argument, no tuple prior, every component it holds rebuilt the same way
+    from autofit.mapper.prior.tuple_prior import TuplePrior
+
+    names = getattr(model, "constructor_argument_names", None)
+    for key, value in model._dict.items() if names is not None else ():
+        if key not in names or isinstance(value, TuplePrior):
+            return False
+        if isinstance(value, ModelObject) and not (
+            hasattr(value, "constructor_argument_names") and _instance_is_exact(value)
+        ):
+            return False
+    return True
+
+
 class ModelObject:
     _ids = itertools.count()
 
@@ -290,7 +306,11 @@ class ModelObject:
 
         if isinstance(self, Collection):
             type_ = "collection"
-        elif isinstance(self, AbstractPriorModel) and self.prior_count == 0:
+        elif (
+            isinstance(self, AbstractPriorModel)
+            and self.prior_count == 0
+            and _instance_is_exact(self)
+        ):
             type_ = "instance"
         elif isinstance(self, Model):
             type_ = "model"
